@@ -1512,7 +1512,7 @@ def walk(
 
             # last yield on leaving walk root, which may restart the walk
 
-            if self_ and (ast := self.a):  # may have been deleted
+            if self_ and (ast := self.a) and check_all_param(self):  # may have been deleted, subject to `all` check like on entering
                 recurse_ = False
 
                 while (sent := (yield self)) is not None:
@@ -1593,7 +1593,7 @@ def walk(
 
             # last yield on leaving walk root, which may restart the walk
 
-            if self_ and (ast := self.a):  # may have been deleted
+            if self_ and (ast := self.a) and check_all_param(self):  # may have been deleted, subject to `all` check like on entering
                 recurse_ = False
                 yield_ = (self, True)
 
